@@ -3,6 +3,7 @@
    participants (in index order) with their instructor flag, the number of hidden extra names. *)
 From Coq Require Import List Arith Bool Lia.
 Require Import HP1 Cao1 Cao3 Listing.
+Require Json SimpleRead SimpleRound.
 Import ListNotations.
 Open Scope nat_scope.
 
@@ -44,9 +45,17 @@ Example C14_example :
   = [ (2, [(2, false)], 1); (2, [(0, false); (3, true)], 0) ].
 Proof. vm_compute. reflexivity. Qed.
 
-Check C14_courses. Check C14_partition. Check C14_once. Check C14_flags. Check C14_count. Check C14_array.
+(* "the input": the simple-format document that io::simple::write_input_data produces for an instance (SimpleRound.doc: all fields, object
+   form) is read back by the reader model as exactly that instance; the CLI stream checks on every run that the real input file reads
+   back as the instance the listing and the array are compared with *)
+Theorem C14_input_round_trip : forall ps cs, Forall SimpleRound.wf_part ps -> Forall SimpleRound.wf_course cs ->
+  SimpleRead.simple_read (SimpleRound.doc ps cs) = Json.ROk (ps, cs).
+Proof. exact SimpleRound.simple_round_trip. Qed.
+
+Check C14_input_round_trip. Check C14_courses. Check C14_partition. Check C14_once. Check C14_flags. Check C14_count. Check C14_array.
 Print Assumptions C14_partition.
 Print Assumptions C14_once.
 Print Assumptions C14_flags.
 Print Assumptions C14_count.
 Print Assumptions C14_array.
+Print Assumptions C14_input_round_trip.
